@@ -3120,7 +3120,9 @@ class Gaussian(Preparation, Decomposition):
             for n, expr in enumerate(D[: self.ns]):
                 if np.abs(expr - 1) >= _decomposition_tol:
                     r = np.abs(np.log(expr) / 2)
-                    cmds.append(Command(Squeezed(r, 0), reg[n]))
+                    # a variance above the vacuum level means squeezing along p
+                    phi = 0 if expr < 1 else np.pi
+                    cmds.append(Command(Squeezed(r, phi), reg[n]))
                 else:
                     cmds.append(Command(Vac, reg[n]))
 
@@ -3129,7 +3131,9 @@ class Gaussian(Preparation, Decomposition):
             for n, v in enumerate(BD_modes):
                 if not np.all(v - np.identity(2) < _decomposition_tol):
                     r = np.abs(np.arccosh(np.sum(np.diag(v)) / 2)) / 2
-                    phi = np.arctan(2 * v[0, 1] / np.sum(np.diag(v) * [1, -1]))
+                    # v = [[ch - c sh, -s sh], [-s sh, ch + c sh]] with (c, s) the squeezing phase:
+                    # arctan2 keeps the quadrant of the phase
+                    phi = np.arctan2(-2 * v[0, 1], v[1, 1] - v[0, 0])
                     cmds.append(Command(Squeezed(r, phi), reg[n]))
                 else:
                     cmds.append(Command(Vac, reg[n]))
